@@ -60,9 +60,9 @@ def halving_ratio(seed, cases=6):
     from gearpy.utils import add_fixed_joint, add_gear_mating
     rng = random.Random(seed)
     worst = None
-    cases = 0
+    n_cases, cases = cases, 0
     bad = []
-    for _ in range(cases):
+    for _ in range(n_cases):
         n1, n2 = rng.randint(10, 30), rng.randint(20, 80)
         eff = rng.uniform(0.7, 1.0)
         Tl = rng.uniform(0.0, 4.0)
@@ -113,6 +113,9 @@ def halving_ratio(seed, cases=6):
         worst = rec if worst is None or abs(r2 - 2) > abs(worst["ratios"][1] - 2) else worst
         if not (1.6 <= r1 <= 2.5 and 1.6 <= r2 <= 2.5 and bound_ok):
             bad.append(rec)
+    if cases == 0:
+        return dict(id="convergence.bounded[error-halves-when-dt-is-halved]", status="undecided", counts_as_obligation=False, bounded=True,
+                    note="vacuous: no case was run")
     return dict(id="convergence.bounded[error-halves-when-dt-is-halved]", status="refuted" if bad else "passed",
                 counts_as_obligation=False, bounded=True, bound=f"{cases} random two-stage powertrains x dt in Tend/40, /80, /160, Tend = 2 time constants",
                 note=str(bad[:2]) if bad else f"worst case {worst}", replay_result=dict(confirmed=bool(bad), cases=bad[:2]))
